@@ -17,6 +17,7 @@ pub fn apply_from(f: &str, x: &Proj) -> Proj {
         ("vec_sum", Proj::Seq(v)) => Proj::UInt(
             v.iter().map(|p| if let Proj::UInt(u) = p { *u as u64 } else { 0 }).fold(0u64, |a, b| a.wrapping_add(b)) as u128,
         ),
+        ("wrap_id", x) => x.clone(),
         _ => panic!("model: unknown from function {f} for {x:?}"),
     }
 }
@@ -70,6 +71,13 @@ pub fn apply_try_from(f: &str, x: &Proj) -> Result<Proj, ForeignErr> {
                 Ok(Proj::Struct("Wrap".into(), vec![("0".into(), Proj::Str(s.clone()))]))
             } else {
                 Err(ForeignErr { name: "Empty", msg: "empty string".into() })
+            }
+        }
+        ("try_wrap_l3", x) => {
+            if x.leaves() % 3 == 0 {
+                Err(ForeignErr { name: "Empty", msg: format!("{} leaves", x.leaves()) })
+            } else {
+                Ok(x.clone())
             }
         }
         _ => panic!("model: unknown try_from function {f} for {x:?}"),
